@@ -9,7 +9,14 @@
     scratch cwd, half of the runs with a pre-existing output file holding a sentinel): for a
     generated valid workbook status 0 and a JSON file; for every fault class x injectable
     position: status != 0, stderr or errors.log non-empty and naming the offending sheet /
-    row / name, output path absent or byte-identical to the sentinel.
+    row / name, output path absent or byte-identical to the sentinel;
+(c) the same fault stream under a MATRIX OF INVOCATION ENVIRONMENTS (c15_env.py, translator/c15_configs.py): what a
+    CRITICAL record does is decided when rpft.cli is imported, from the environment, the options and the working
+    directory.  The surface is discovered from the tree at hand on every run (every environment variable the package
+    reads, every option of the subcommand, the log files) and the faults are run under every configuration
+    (variable x plausible values, log file pre-existing / unopenable, unwritable cwd, --tags, --datamodels, unknown
+    options) and every run shape (csv/json/xlsx, several inputs, output path styles, subcommand alias, option
+    spelling); a configuration whose handlers differ from the default ones gets every fault class.
 """
 import concurrent.futures
 import json
@@ -24,9 +31,10 @@ import traceback
 import common
 from common import parse_sexp, dec_str
 import c15_wb as W
+import c15_env as E
 
 LEVEL = "proof"
-SENTINEL = "C15-SENTINEL: this file was here before the command ran\n"
+SENTINEL = E.SENTINEL
 _counter = [0]
 
 
@@ -172,49 +180,39 @@ def agree(m, i):
 
 
 # ------------------------------------------------------------------ the real command
-def run_cli(wb, sentinel, keep=None):
-    """runs `python -m rpft.cli create_flows` on the workbook in a scratch cwd.
-    -> dict(status, stderr, log, out_exists, out_content)"""
-    root = tempfile.mkdtemp(prefix="c15cli")
-    try:
-        W.write_folder(wb, os.path.join(root, "wb"), "c15models")
-        out = os.path.join(root, "out.json")
-        if sentinel:
-            with open(out, "w") as f:
-                f.write(SENTINEL)
-        argv = [common.PY, "-m", "rpft.cli", "create_flows", "-f", "csv", "-o", "out.json"]
-        if wb.get("dm") is not None:
-            argv += ["--datamodels", "c15models"]
-        argv += ["wb"]
-        env = common.impl_env()
-        try:
-            p = subprocess.run(argv, cwd=root, env=env, stdout=subprocess.PIPE, stderr=subprocess.PIPE, timeout=120, text=True)
-            status, stderr = p.returncode, p.stderr
-        except subprocess.TimeoutExpired:
-            status, stderr = -999, "timeout"
-        log = ""
-        lp = os.path.join(root, "errors.log")
-        if os.path.exists(lp):
-            log = open(lp, errors="replace").read()
-        exists = os.path.exists(out)
-        content = open(out, errors="replace").read() if exists else None
-        return dict(status=status, stderr=stderr[-3000:], log=log[-3000:], out_exists=exists, out_content=content, argv=argv[1:])
-    finally:
-        shutil.rmtree(root, ignore_errors=True)
+_DISC = [None]
 
 
-def oracle_fault(res, sentinel, tokens):
-    """the property on one faulty run -> list of problems (empty = holds)"""
+def discovery():
+    """the invocation surface of the tree at hand (discovered once per process)"""
+    if _DISC[0] is None:
+        _DISC[0] = E.C.discover(common.SRC, common.PY)
+    return _DISC[0]
+
+
+def run_cli(wb, sentinel, inv=None):
+    """runs `python -m rpft.cli create_flows` on the workbook in a scratch cwd, under the invocation `inv`
+    (default: nothing set, csv folder, relative paths).
+    -> dict(status, stderr, log, out_exists, out_content, argv, env, cwd)"""
+    return E.run_cli(wb, sentinel, inv or E.default_inv(), discovery())
+
+
+def oracle_fault(res, sentinel, tokens, start=0):
+    """the property on one faulty run -> list of problems (empty = holds).
+    start: 0 = the configuration lets the command get to the workbook (the whole property applies);
+    1 = under this configuration the command ends before it reads anything (e.g. the log file cannot be opened):
+    it cannot name a fault it never saw, the rest applies; 2 = it is not asked to compile: only the output path."""
     bad = []
-    if res["status"] == 0:
-        bad.append("exit status 0")
-    text = (res["stderr"] or "") + "\n" + (res["log"] or "")
-    if not text.strip():
-        bad.append("nothing on stderr nor in errors.log")
-    else:
-        missing = [t for t in tokens if t.lower() not in text.lower()]
-        if missing:
-            bad.append(f"stderr/log do not name {missing}")
+    if start != 2:
+        if res["status"] == 0:
+            bad.append("exit status 0")
+        text = (res["stderr"] or "") + "\n" + (res["log"] or "")
+        if not text.strip():
+            bad.append("nothing on stderr nor in errors.log")
+        elif start == 0:
+            missing = [t for t in tokens if t.lower() not in text.lower()]
+            if missing:
+                bad.append(f"stderr/log do not name {missing}")
     if sentinel:
         if not res["out_exists"]:
             bad.append("pre-existing output file removed")
@@ -299,6 +297,151 @@ def dec_json(x):
     if t == 5:
         return [dec_json(y) for y in x[1]]
     return {dec_str(k): dec_json(v) for k, v in x[1]}
+
+
+# ------------------------------------------------------------------ invocation environments
+def cli_in_request(wb, old, cfg_id):
+    o = "()" if old is None else "(" + common.enc_str(old) + ")"
+    return f"(115 6 {W.FUEL} {W.enc_dm(wb)} {W.enc_workbook(wb)} {o} {cfg_id})"
+
+
+def config_table(ctx, disc, cfgs):
+    """per configuration id: dict(start, stops, status, like) — what the regenerated table c15_log_configs says, read
+    through the extracted model (so that the runs below are compared with what the theorems are about); probed here
+    when there is no model or the table belongs to another matrix"""
+    info, source = {}, "Gen/Tables.v through the extracted model"
+    if ctx.model is not None:
+        try:
+            x = parse_sexp(ctx.model.ask("(115 5)"))
+            for r in x[1]:
+                info[r[0]] = dict(start=r[1], stops=bool(r[2]), status=r[3], like=bool(r[4]))
+            if x[0] != E.config_digest(cfgs):
+                ctx.disagree("the configuration matrix of Gen/Tables.v is not the one discovered in the tree now",
+                             [c["name"] for c in cfgs][:80], x[0], E.config_digest(cfgs))
+                info = {}
+        except Exception as e:
+            ctx.stats["config_table_error"] = f"{type(e).__name__}: {e}"[:200]
+            info = {}
+    if not info:
+        source = "probed by the harness"
+        for i, r in enumerate(E.C.probe_all(cfgs, disc, common.SRC, common.PY)):
+            if r.get("unavailable") or r.get("usage_error"):
+                continue
+            st = E.C.start_code(r)
+            obs = ((r.get("log") or {}).get("observed")) or [E.C.NEVER, 0]
+            if st == 0:
+                info[i] = dict(start=0, stops=(obs[0] <= 50 and obs[1] != 0), status=obs[1], like=(obs[0] == 50))
+            else:
+                info[i] = dict(start=st, stops=False, status=r.get("status") or 1, like=False)
+    return info, source
+
+
+def tally_invocation(ctx, inv, start):
+    t = ctx.stats.setdefault("invocations", {})
+
+    def bump(group, key):
+        g = t.setdefault(group, {})
+        g[key] = g.get(key, 0) + 1
+
+    name = inv["cfg"]["name"]
+    bump("by_configuration_kind", name.split(":")[0] if ":" in name else name)
+    bump("by_configuration", name)
+    bump("by_start", {0: "gets to the workbook", 1: "ends before, non-zero", 2: "ends before, zero"}.get(start, str(start)))
+    shape = dict(E.DEFAULT_SHAPE, **inv.get("shape", {}))
+    for k, val in shape.items():
+        bump("by_" + k, str(val))
+
+
+def environment_jobs(ctx, base_jobs):
+    """-> (jobs (kind, workbook, sentinel, meta, invocation), table of the configurations)"""
+    rng, scale = ctx.rng, ctx.scale * (3 if ctx.tier == "thorough" else 1)
+    disc = discovery()
+    cfgs = E.C.enumerate_configs(disc)
+    info, source = config_table(ctx, disc, cfgs)
+    inv_stats = ctx.stats.setdefault("invocations", {})
+    inv_stats["discovered"] = dict(
+        environment_variables=disc["env_where"], computed_names_at=disc["env_dynamic"], environment_as_a_whole_at=disc["env_opaque"],
+        options=[" ".join(o["option_strings"]) or o["dest"] for o in disc["options"]], subcommands=disc["subcommands"],
+        log_files=disc["log_files"], values_tried=disc["values"], options_not_handled=disc.get("unhandled_options", []),
+        formats_not_run=E.uncovered_formats(disc), configurations=len(cfgs), configuration_table=source)
+    groups = {}
+    for i, c in enumerate(cfgs):
+        inf = info.get(i)
+        sig = "rejected by the argument parser / cannot be set up here" if inf is None else \
+            (f"start={inf['start']} critical-stops={inf['stops']} status={inf['status']} like-default={inf['like']}")
+        groups.setdefault(sig, []).append(c["name"])
+    inv_stats["configurations_by_what_a_CRITICAL_record_does"] = {k: (v if len(v) <= 12 else v[:12] + [f"... {len(v) - 12} more"])
+                                                                  for k, v in groups.items()}
+
+    faults = [j for j in base_jobs if j[0] == "fault" and not j[3].get("not_evaluated")]
+    valids = [j for j in base_jobs if j[0] == "valid"]
+    if not faults or not valids:
+        return [], info
+    by_key = {}
+    for j in faults:
+        by_key.setdefault(j[3]["key"], []).append(j)
+    keys = sorted(by_key)
+    order = list(keys)
+    rng.shuffle(order)
+    cursor = [0]
+
+    def next_fault(exclude=()):
+        for _ in range(len(order)):
+            k = order[cursor[0] % len(order)]
+            cursor[0] += 1
+            if k not in exclude:
+                return rng.choice(by_key[k])
+        return None
+
+    def sweep(exclude=()):
+        return [rng.choice(by_key[k]) for k in keys if k not in exclude]
+
+    out = []
+
+    def add(j, cfg, cfg_id, shape):
+        if j is None:
+            return
+        out.append((j[0], j[1], rng.random() < 0.5, j[3], dict(cfg=cfg, cfg_id=cfg_id, shape=shape)))
+
+    base = info.get(0)
+    swept = set()
+    for i, cfg in enumerate(cfgs):
+        inf = info.get(i)
+        if inf is None or i == 0:
+            continue
+        family = cfg["name"].split("=")[0].split(" ")[0]
+        if inf["start"] != 0:
+            picks = [(next_fault(), {}) for _ in range(2)]
+        elif inf != base:
+            # the handlers that see a CRITICAL record are not the default ones: every fault class
+            picks = [(j, {}) for j in sweep()]
+            if scale > 1:
+                picks += [(next_fault(), {}) for _ in range(4 * scale)]
+        elif family not in swept:
+            # first value of every variable / option: every fault class (a read the probe cannot see)
+            swept.add(family)
+            picks = [(j, {}) for j in sweep()]
+        else:
+            picks = []
+            for _ in range(2 * scale):
+                sh = E.random_shape(rng, disc)
+                # with a second input that has a content index of its own, a workbook without one is not faulty
+                picks.append((next_fault(("no_content_index",) if sh.get("multi") else ()), sh))
+        for j, sh in picks:
+            add(j, cfg, i, sh)
+        if inf["start"] != 0 or inf != base or rng.random() < 0.34:
+            add(rng.choice(valids), cfg, i, {})
+    # run shapes under the default configuration
+    for label, delta in E.shape_dimensions(disc):
+        excl = ("no_content_index",) if delta.get("multi") else ()
+        for _ in range(3 * scale):
+            add(next_fault(excl), dict(E.DEFAULT_CFG), 0, dict(delta))
+        add(rng.choice(valids), dict(E.DEFAULT_CFG), 0, dict(delta))
+    # shapes combined
+    for _ in range(6 * scale):
+        sh = E.random_shape(rng, disc, p=0.8)
+        add(next_fault(("no_content_index",) if sh.get("multi") else ()), dict(E.DEFAULT_CFG), 0, sh)
+    return out, info
 
 
 # ------------------------------------------------------------------ run
@@ -430,51 +573,110 @@ def run(ctx):
             j[3]["not_evaluated"] = True
             ctx.count("inject_not_evaluated_position")
 
+    # ---------------- (2c) the invocation environments: the same faults under every configuration and run shape
+    try:
+        env_jobs, env_info = environment_jobs(ctx, jobs)
+    except Exception as e:      # the discovery met a tree it cannot read: say so, do not hide the rest of the check
+        env_jobs, env_info = [], {}
+        ctx.disagree("the invocation-environment stream could not be set up on this tree", None,
+                     f"{type(e).__name__}: {e}"[:300], traceback.format_exc()[-600:])
+    jobs = [j + (None,) for j in jobs] + env_jobs
+
     # the real command, in a pool
     def work(job):
-        return run_cli(job[1], job[2])
+        return run_cli(job[1], job[2], job[4])
 
     with concurrent.futures.ThreadPoolExecutor(max_workers=16) as ex:
         results = list(ex.map(work, jobs))
 
+    # what the model of the command says under the configuration of each fault run (Io/Cli.v cli_in)
+    predictions = {}
+    if ctx.model is not None:
+        ask = [(n, j) for n, j in enumerate(jobs) if j[0] == "fault" and j[4] is not None and j[3].get("model") is not None
+               and j[3]["model"][0] == "err" and j[3]["model"][1] not in (98, 99) and j[4]["cfg_id"] in env_info]
+        outs = ctx.model.ask_many([cli_in_request(j[1], SENTINEL if j[2] else None, j[4]["cfg_id"]) for _, j in ask])
+        for (n, _), o in zip(ask, outs):
+            try:
+                predictions[n] = parse_sexp(o)
+            except Exception:
+                predictions[n] = None
+
     samples = []
-    for job, res in zip(jobs, results):
-        kind, wb, sentinel, meta = job
+    for n, (job, res) in enumerate(zip(jobs, results)):
+        kind, wb, sentinel, meta, inv = job
+        if res.get("unavailable"):
+            ctx.count("cli_configuration_unavailable_here")
+            continue
         v.coverage["evaluations"] += 1
         ctx.count("cli_runs")
         ctx.count("cli_with_sentinel" if sentinel else "cli_without_output_file")
+        start = 0
+        where = ""
+        if inv is not None:
+            start = env_info.get(inv["cfg_id"], {}).get("start", 0)
+            where = " [" + E.describe(inv) + "]"
+            tally_invocation(ctx, inv, start)
+        rep_extra = dict(inv=inv, cfg_start=start) if inv is not None else {}
         if kind == "valid":
+            nontrivial.add(("valid", meta["index"], E.describe(inv) if inv else ""))
+            if start != 0:
+                # the configuration does not let the command get to the workbook: nothing may appear at the output path
+                bad = oracle_fault(res, sentinel, [], start)
+                if bad:
+                    v.failing_input("output_touched_by_a_command_that_cannot_start",
+                                    f"valid workbook{where}: {'; '.join(bad)}",
+                                    dict(workbook=wb, sentinel=sentinel, kind="fault", key="not_started", tokens=[],
+                                         observed=_short(res), **rep_extra))
+                continue
             bad = oracle_valid(res)
-            nontrivial.add(("valid", meta["index"]))
             if bad:
-                v.failing_input("valid_workbook_rejected", f"valid workbook: {bad}",
-                                dict(workbook=wb, sentinel=sentinel, kind="valid", observed=_short(res)))
+                v.failing_input("valid_workbook_rejected", f"valid workbook{where}: {bad}",
+                                dict(workbook=wb, sentinel=sentinel, kind="valid", observed=_short(res), **rep_extra))
             else:
                 d = cli_doc(res)
-                if d is not None and (d[1] != meta["impl"][1]):
-                    ctx.disagree("command output vs library call", dict(workbook=wb), meta["impl"], d)
+                exp = list(meta["impl"][1])
+                multi = (inv or {}).get("shape", {}).get("multi")
+                if multi == "extra-first":
+                    exp = [E.EXTRA_FLOW] + exp
+                elif multi == "extra-last":
+                    exp = exp + [E.EXTRA_FLOW]
+                if d is not None and (d[1] != exp):
+                    ctx.disagree("command output vs library call" + where, dict(workbook=wb), exp, d)
                 if len(samples) < 2:
                     samples.append(dict(kind="valid", flows=d[1] if d else None, status=res["status"]))
         else:
             key = meta["key"]
             if meta.get("not_evaluated"):
-                if res["status"] != 0:
-                    ctx.disagree(f"model: document, command: status {res['status']} ({key}, {meta['desc']})", dict(workbook=wb), meta.get("model"), _short(res))
+                if res["status"] != 0 and start == 0:
+                    ctx.disagree(f"model: document, command: status {res['status']} ({key}, {meta['desc']}){where}", dict(workbook=wb), meta.get("model"), _short(res))
                 continue
             ctx.count("fault_" + key)
-            nontrivial.add((key, meta["desc"].split(" ")[0], meta["base"]))
-            bad = oracle_fault(res, sentinel, meta["tokens"])
+            nontrivial.add((key, meta["desc"].split(" ")[0], meta["base"], E.describe(inv) if inv else ""))
+            bad = oracle_fault(res, sentinel, meta["tokens"], start)
             if bad:
-                v.failing_input(key, f"{key} at {meta['desc']}: {'; '.join(bad)}",
+                v.failing_input(key, f"{key} at {meta['desc']}{where}: {'; '.join(bad)}",
                                 dict(workbook=wb, sentinel=sentinel, kind="fault", key=key, tokens=meta["tokens"],
-                                     desc=meta["desc"], observed=_short(res), model=meta.get("model")))
+                                     desc=meta["desc"], observed=_short(res), model=meta.get("model"), **rep_extra))
             # model prediction vs observed status
             m = meta.get("model")
-            if m is not None and m[0] in ("ok", "err") and not (m[0] == "err" and m[1] in (98, 99)):
+            if m is not None and m[0] in ("ok", "err") and not (m[0] == "err" and m[1] in (98, 99)) and start == 0:
                 if (m[0] == "ok") != (res["status"] == 0):
-                    ctx.disagree(f"model prediction vs exit status ({key}, {meta['desc']})", dict(workbook=wb), m, _short(res))
+                    ctx.disagree(f"model prediction vs exit status ({key}, {meta['desc']}){where}", dict(workbook=wb), m, _short(res))
+            if n in predictions:
+                pr = predictions[n]
+                ctx.count("cli_in_predictions")
+                if not pr or pr[0] != 1:
+                    ctx.count("cli_in_model_does_not_say")
+                    ctx.disagree(f"cli_in: the model does not say what the command does under configuration {inv['cfg']['name']} "
+                                 f"({key}, {meta['desc']})", dict(workbook=wb), pr, _short(res))
+                else:
+                    kept = (dec_str(pr[2][0]) == SENTINEL) if (sentinel and pr[2]) else (not pr[2])
+                    seen_kept = (res["out_content"] == SENTINEL) if sentinel else (not res["out_exists"])
+                    if pr[1] != res["status"] or kept != seen_kept:
+                        ctx.disagree(f"cli_in (status, output kept) under configuration {inv['cfg']['name']} ({key}, {meta['desc']})",
+                                     dict(workbook=wb), [pr[1], kept], [res["status"], seen_kept])
             if len(samples) < 8 and not bad:
-                samples.append(dict(kind=key, at=meta["desc"], status=res["status"],
+                samples.append(dict(kind=key, at=meta["desc"] + where, status=res["status"],
                                     said=((res["stderr"] or res["log"]).strip().splitlines() or [""])[-1][:160]))
 
     # ---------------- (3) the model of the command itself: file system unchanged on error, dump on success
@@ -508,13 +710,21 @@ def run(ctx):
         "an unknown data_model is a fault only when --datamodels is given (without it the name is ignored by the tool)",
         "process death from outside (signal, full disk) while json.dump writes is not modelled: the command writes in place",
         "fault class of the implementation is read from its message/exception where recognisable; other messages count as 'stopped'",
+        "invocation environments: every environment variable read anywhere in the package (ast scan + traced probe) x a fixed list of "
+        "plausible values plus the string constants the CLI/logger modules compare things with; log file pre-existing / a directory / "
+        "a dangling symlink; a cwd nobody can write to (/sys); --tags, --datamodels, every other option of the subcommand; formats "
+        "csv, json, xlsx (google_sheets needs the network: not run); a variable whose name is computed in code the probe does not "
+        "execute, values outside the list, and the process environment of Python itself (PYTHON*) are not covered",
+        "under a configuration in which the command ends before it reads the workbook (log file cannot be opened) 'names the problem' "
+        "is not asked: the tool never saw the fault; non-zero status, something on stderr and an untouched output path are",
     ]
 
 
 def _short(res):
     return dict(status=res["status"], stderr=(res["stderr"] or "")[-600:], log=(res["log"] or "")[-600:],
                 out_exists=res["out_exists"], out_is_sentinel=(res["out_content"] == SENTINEL),
-                out_len=len(res["out_content"]) if res["out_content"] is not None else None, argv=res.get("argv"))
+                out_len=len(res["out_content"]) if res["out_content"] is not None else None, argv=res.get("argv"),
+                env=res.get("env"), cwd=res.get("cwd"))
 
 
 def replay(rep):
@@ -522,16 +732,23 @@ def replay(rep):
     wb = r["workbook"]
     # JSON turns tuples into lists: restore the tagged pairs the renderers expect
     wb = _retuple(wb)
-    res = run_cli(wb, r.get("sentinel", False))
+    inv = r.get("inv")
+    start = r.get("cfg_start", 0)
+    res = run_cli(wb, r.get("sentinel", False), inv)
+    if res.get("unavailable"):
+        print("this configuration cannot be set up on this machine")
+        return True
+    if inv:
+        print("invocation:", E.describe(inv), " environment:", res.get("env"), " cwd:", res.get("cwd"))
     print("argv:", " ".join(res["argv"]))
     print("status:", res["status"], " output exists:", res["out_exists"],
           " output is sentinel:", res["out_content"] == SENTINEL)
     print("stderr:", (res["stderr"] or "")[-500:])
-    print("errors.log:", (res["log"] or "")[-300:])
+    print("log:", (res["log"] or "")[-300:])
     if r.get("kind") == "valid":
         bad = oracle_valid(res)
     else:
-        bad = oracle_fault(res, r.get("sentinel", False), r.get("tokens", []))
+        bad = oracle_fault(res, r.get("sentinel", False), r.get("tokens", []), start)
     for b in bad:
         print("property fails:", b)
     return not bad
